@@ -21,9 +21,8 @@
       theorem `connect_ring_two` (explicit gap formula) is kept
     offset of a single-part location and of an origin-spanning span on a ring (rotation of the same bases)
     extension of a single-part location on a linear and on a circular record (exactly the bases within the distance)
-    extension of an origin-spanning span on a circular record: exactly the bases within the distance for every
-      d ≥ 0; a well-formed span under the distance cap of `_extend_area_location` (without the cap the code can
-      return three overlapping parts: `extend_ring_area_three_parts_start/_end`, replayed on the real code)
+    extension of an origin-spanning span on a circular record: exactly the bases within the distance and a
+      well-formed span for every d ≥ 0 (after the repair D59; before it the code could return three overlapping parts)
     the feature ordering is a strict weak order
   Carried by the exhaustive small-scope correspondence + executable set-of-bases spec only
   (see DESIGN.md): the error paths of connect (inputs that bridge the origin but cannot be split);
@@ -305,41 +304,20 @@ theorem extend_ring_exact (p : Part) (d L : Int) (h0 : 0 ≤ p.lo) (h1 : p.lo < 
   ⟨_, extend_simple_ring_eq p d L h0 h1 h2 hd hdL, extSimpleRing_mem p d L h0 h1 h2 hd⟩
 
 /-- extending the forward origin-spanning span `[x, L) + [0, y)` (the shape of every origin-spanning
-    core) by any `d ≥ 0` on a circular record succeeds and covers exactly the bases within ring
-    distance `d` of the span (the whole-record branch included).  The result is a well-formed span
-    (one part, or two parts meeting at the origin) whenever neither end is pushed over the record
-    edge on its own (`d ≤ x` and `y + d ≤ L`) or the two ends meet (`L + x − y < 2d`); otherwise
-    the implementation returns three overlapping parts — see `extend_ring_area_three_parts_*`. -/
+    core) by any `d ≥ 0` on a circular record succeeds, covers exactly the bases within ring
+    distance `d` of the span (the whole-record branch included) and is a well-formed span (one part,
+    or two parts meeting at the origin) — unconditionally after the repair D59 -/
 theorem extend_ring_area_exact (x y d L : Int) (hL : 0 < L) (hy0 : 0 < y) (hyx : y ≤ x) (hxL : x < L) (hd : 0 ≤ d) :
     ∃ r, extendLocation (areaTwo x y L .fwd) d L true = .ok r ∧
       (∀ i, r.mem i = true ↔ (0 ≤ i ∧ i < L ∧ ∃ j, (areaTwo x y L .fwd).mem j = true ∧ ringAbs L i j ≤ d)) ∧
-      (((d ≤ x ∧ y + d ≤ L) ∨ L + x - y < 2 * d) → areaWF L L r = true) :=
+      areaWF L L r = true :=
   ⟨_, extend_area_ring_eq x y d L hL hy0 hyx hxL hd, extAreaRing_mem x y d L hL hy0 hyx hxL hd,
     extAreaRing_wf x y d L hL hy0 hyx hxL hd⟩
 
-/-- `_extend_area_location` caps the distance at `(len(record) − len(location)) // 2 + 1`; under that
-    cap the extension of an origin-spanning span is always a well-formed span -/
-theorem extend_ring_area_capped_wf (x y d L : Int) (hL : 0 < L) (hy0 : 0 < y) (hyx : y ≤ x) (hxL : x < L) (hd : 0 ≤ d)
-    (hcap : d ≤ (L - (areaTwo x y L .fwd).len) / 2 + 1) :
-    ∃ r, extendLocation (areaTwo x y L .fwd) d L true = .ok r ∧ areaWF L L r = true := by
-  refine ⟨_, extend_area_ring_eq x y d L hL hy0 hyx hxL hd, extAreaRing_wf x y d L hL hy0 hyx hxL hd (Or.inl ?_)⟩
-  have hlen : (areaTwo x y L .fwd).len = (L - x) + (y - 0) := by simp [areaTwo, Loc.len, Loc.parts, Part.len]
-  rw [hlen] at hcap
-  omega
-
-/-- without the cap: the start of `[10, 100) + [0, 5)` extended by 20 passes the origin (10 < 20)
-    while the two ends do not meet the whole-record test; the result has three overlapping parts
-    (its bases are the whole record, as they should be, but it is not a well-formed span) -/
-theorem extend_ring_area_three_parts_start :
-    extendLocation (areaTwo 10 5 100 .fwd) 20 100 true =
-      .ok (.compound [⟨90, 100, .fwd⟩, ⟨0, 100, .fwd⟩, ⟨0, 25, .fwd⟩]) ∧
-    areaWF 100 100 (.compound [⟨90, 100, .fwd⟩, ⟨0, 100, .fwd⟩, ⟨0, 25, .fwd⟩]) = false := ⟨by rfl, by rfl⟩
-
-/-- the same at the other end: `[90, 100) + [0, 80)` extended by 30 -/
-theorem extend_ring_area_three_parts_end :
-    extendLocation (areaTwo 90 80 100 .fwd) 30 100 true =
-      .ok (.compound [⟨60, 100, .fwd⟩, ⟨0, 100, .fwd⟩, ⟨0, 10, .fwd⟩]) ∧
-    areaWF 100 100 (.compound [⟨60, 100, .fwd⟩, ⟨0, 100, .fwd⟩, ⟨0, 10, .fwd⟩]) = false := ⟨by rfl, by rfl⟩
+/-- the two layouts on which the code returned three overlapping parts before D59
+    (`[90:100], [0:100], [0:25]` and `[60:100], [0:100], [0:10]`): now the whole record -/
+example : extendLocation (areaTwo 10 5 100 .fwd) 20 100 true = .ok (.simple ⟨0, 100, .fwd⟩) ∧
+    extendLocation (areaTwo 90 80 100 .fwd) 30 100 true = .ok (.simple ⟨0, 100, .fwd⟩) := ⟨by rfl, by rfl⟩
 
 /-! ### ordering -/
 
